@@ -73,6 +73,33 @@ package module
 //@     invariant forall y U :: smem(collator(set), view(set), y) <==> smem(collator(set), snap(iterator)[0:pos(iterator)], y)
 //@     decreases len(snap(iterator)) - pos(iterator)
 
+// Map[K, V]: no data argument, a Go map, or CDCN source (at most one argument). From source: the keys are those of the
+// parsed associations and a repeated key keeps its last value (what the class constructor MakeFromSequence gives).
+//@ func Map
+//@   props C20
+//@   nilok
+//@   uses kmem_snoc, kmem_take_none, kmem_take_all
+//@   requires len(arguments) <= 1
+//@   requires len(arguments) == 1 ==> typeis(arguments[0], mapof2(K, V)) || typeis(arguments[0], "string")
+//@   let s := view(parsedval(unboxStr(arguments[0])))
+//@   assumes len(arguments) == 1 && typeis(arguments[0], "string") ==> (forall i :: 0 <= i && i < len(s) ==> s[i] != nil)
+//@   ensures[C20] result != nil && fresh(result)
+//@   ensures[C20] len(arguments) == 0 ==> card(result) == 0 && (forall k U :: !dom(result, k))
+//@   ensures[C20] len(arguments) == 1 && typeis(arguments[0], mapof2(K, V)) && card(arguments[0]) > 0 ==> (forall k U :: (dom(result, k) <==> dom(arguments[0], k)) && (dom(result, k) ==> get(result, k) == get(arguments[0], k)))
+//@   ensures[C20] len(arguments) == 1 && typeis(arguments[0], "string") && len(unboxStr(arguments[0])) > 0 ==> (forall k U :: dom(result, k) ==> kmem(s, k))
+//@   ensures[C20] len(arguments) == 1 && typeis(arguments[0], "string") && len(unboxStr(arguments[0])) > 0 ==> (forall i :: 0 <= i && i < len(s) ==> dom(result, akey(s[i])) && (lastkey(s, i, len(s)) ==> get(result, akey(s[i])) == aval(s[i])))
+//@   loop 1:
+//@     invariant -1 <= rangeindex && rangeindex <= 0 && rangeindex < len(arguments) && notation != nil && sequence == nil && len(associations) == 0
+//@     invariant rangeindex == -1 ==> mappings == nil && source == ""
+//@     invariant rangeindex == 0 && typeis(arguments[0], mapof2(K, V)) ==> mappings == arguments[0] && source == ""
+//@     invariant rangeindex == 0 && typeis(arguments[0], "string") ==> source == unboxStr(arguments[0]) && mappings == nil
+//@     decreases 1 - rangeindex
+//@   loop 2:
+//@     invariant map_ != nil && fresh(map_) && snap(iterator) == s && source == unboxStr(arguments[0]) && 0 <= pos(iterator) && pos(iterator) <= len(s)
+//@     invariant forall k U :: dom(map_, k) ==> kmem(s[0:pos(iterator)], k)
+//@     invariant forall i :: 0 <= i && i < pos(iterator) ==> dom(map_, akey(s[i])) && (lastkey(s, i, pos(iterator)) ==> get(map_, akey(s[i])) == aval(s[i]))
+//@     decreases len(s) - pos(iterator)
+
 // Stack[V]: no data argument, a capacity, a Go array, or CDCN source (one data argument)
 //@ func Stack
 //@   props C20
